@@ -17,6 +17,18 @@ func main() {
 	switch os.Args[1] {
 	case "check":
 		os.Exit(cmdCheck(os.Args[2:]))
+	case "ssa":
+		eng := newEngine("/repo", "/verif/specs")
+		if err := eng.load(defaultModules); err != nil {
+			fmt.Fprintln(os.Stderr, err)
+			os.Exit(2)
+		}
+		for k, fn := range eng.allFuncs {
+			if strings.Contains(k, os.Args[2]) {
+				fmt.Println("==", k)
+				fn.WriteTo(os.Stdout)
+			}
+		}
 	default:
 		fmt.Fprintln(os.Stderr, "unknown command", os.Args[1])
 		os.Exit(2)
